@@ -6,6 +6,8 @@ except ImportError:
     import pickle
 
 
+import copy
+
 import numpy as np
 
 
@@ -93,8 +95,13 @@ class FitInfoFile(object):
                     info.meta = self._first_meta
                     yield info
         else:
+            # Consumers call keep() on what we yield, so hand out copies rather
+            # than truncating the caller's objects (reading from a file also
+            # gives a new object every time).
             for info in self._fits:
-                yield info
+                info_copy = copy.copy(info)
+                info_copy.meta = info.meta
+                yield info_copy
 
 
 class FitInfoMeta(object):
